@@ -621,20 +621,33 @@ func main() {
 					return true
 				}
 				be, ok := is.Cond.(*ast.BinaryExpr)
-				if !ok || be.Op != token.GTR {
+				if !ok {
 					return true
 				}
-				mentions := false
-				ast.Inspect(be.Y, func(n ast.Node) bool {
-					if id, ok := n.(*ast.Ident); ok && id.Name == "MaxHeaderSize" {
-						mentions = true
-					}
-					return true
-				})
-				if !mentions {
+				switch be.Op { // the guard in any orientation: `size > Max`, `Max < size`, `size <= Max` with the branches swapped, …
+				case token.GTR, token.LSS, token.GEQ, token.LEQ:
+				default:
 					return true
 				}
-				if b, _, ok := bitsOf(pk.TypesInfo.Types[be.X].Type); ok {
+				mentionsMax := func(e ast.Expr) bool {
+					m := false
+					ast.Inspect(e, func(n ast.Node) bool {
+						if id, ok := n.(*ast.Ident); ok && id.Name == "MaxHeaderSize" {
+							m = true
+						}
+						return true
+					})
+					return m
+				}
+				other := be.X
+				switch {
+				case mentionsMax(be.Y) && !mentionsMax(be.X):
+				case mentionsMax(be.X) && !mentionsMax(be.Y):
+					other = be.Y
+				default:
+					return true
+				}
+				if b, _, ok := bitsOf(pk.TypesInfo.Types[other].Type); ok {
 					bits = b
 				}
 				return true
